@@ -197,7 +197,53 @@ def gen_cases(tier, seed):
         sess += [{"k": "rel", "n": 1, "h": rng.choice([b"", b"", b"q", b"rs"]).hex(), "s": "unhold"}, {"k": "gate"}, keys(b"z"), keys(b"\r")]
         case["sessions"].append(sess)
         cases.append(case)
+    cases += by_name_cases(tier, rng)
     return cases
+
+
+def by_name_cases(tier, rng):
+    """I: EVERY registered command by name (most have no default binding: an inputrc may bind any of them), through a private
+    binding, with numeric arguments, from many start states in the three main keymaps, visual and operator-pending"""
+    import p_c06
+    avail = sorted(n for n in default_binds()["commands"] if not n.startswith("probe-"))
+    plain = [n for n in avail if n not in p_c06.ACCEPTING]
+    bufs = list(BUFFERS.values()) + CURATED + class_buffers(2)
+    nst = 40 if tier == "quick" else 300
+    sbm = {}
+    for mode in ("emacs", "vi-insert", "vi-command"):
+        st = []
+        for _ in range(nst):
+            b = rng.choice(bufs)
+            st.append((b, rng.randint(0, len(b)), []))
+        sbm[mode] = st
+    sbm["vi-command"] += [(b, c, [rng.choice([b"v", b"V", b"d", b"y", b"c", b"g~", b"d2", b'"a'])]) for (b, c, _) in sbm["vi-command"][: nst // 2] if b]
+    args = [None, 2, -1, 9, 0] if tier == "quick" else [None, 1, 2, 3, 9, -1, -3, 0, 99]
+    binds, seqs, exps = p_c06.experiments_cases("c01n", plain, sbm, args, rng)
+    cap = 9000 if tier == "quick" else 150000
+    if len(exps) > cap:
+        exps = rng.sample(exps, cap)
+    out = []
+    for k, irc in enumerate(["", random_inputrc(rng, "emacs", p=0.3).replace("set editing-mode vi\n", ""), "set history-autosuggest on\nset autopairs on\n"]):
+        part = exps[k::3]
+        cs = p_c06.build_cases("c01n%d" % k, part, binds, seqs, rng, per_session=40, inputrc_for=irc, comp={"cands": CANDS, "byword": rng.random() < 0.5})
+        for c in cs:
+            c["hangms"] = 10000
+            c["w"] = rng.choice([80, 40, 20])
+        out += cs
+    # the commands that leave Readline (or start an editor): one per call
+    acc = [n for n in avail if n in p_c06.ACCEPTING]
+    abinds, aseqs = private_binds(acc)
+    for i in range(12 if tier == "quick" else 120):
+        mode = rng.choice(["emacs", "vi-insert", "vi-command"])
+        cs = {"id": "c01acc-%d" % i, "inputrc": "set editing-mode vi\n" if mode.startswith("vi") else "", "w": 80, "h": 24, "prompt": "> ",
+              "binds": abinds, "setups": [], "sessions": [], "sources": [{"name": "main", "kind": "mem", "lines": HISTORY}], "hangms": 10000}
+        for _ in range(8):
+            b = rng.choice(bufs)
+            cs["setups"].append(setup(b, rng.randint(0, len(b)), mode))
+            ak = arg_keys(mode, rng.choice([None, None, 2, 9])) or []
+            cs["sessions"].append([SETUP_KEY] + ak + [keys(aseqs[rng.choice(acc)])])
+        out.append(cs)
+    return out
 
 
 def nontrivial(cs, evs):
